@@ -1089,6 +1089,20 @@ def bs_european_binary_theta(
     return _bs_theta_gamma_relation(gamma, spot=spot, volatility=volatility)
 
 
+def _div_0by0(numerator: Tensor, denominator: Tensor) -> Tensor:
+    # numerator / denominator where 0 / 0 is defined as 0
+    output = numerator / denominator
+    return torch.where(
+        (numerator == 0).logical_and(denominator == 0), torch.zeros_like(output), output
+    )
+
+
+def _x_npdf(input: Tensor) -> Tensor:
+    # x * npdf(x), which tends to 0 as x goes to +-inf
+    output = input * npdf(input)
+    return torch.where(input.isinf(), torch.zeros_like(output), output)
+
+
 def bs_american_binary_price(
     log_moneyness: Tensor,
     max_log_moneyness: Tensor,
@@ -1127,11 +1141,10 @@ def bs_american_binary_delta(
     d2_tensor = d2(s, t, v)
     w = v * t.sqrt()
 
-    # ToDo: fix 0/0 issue
     p = (
-        npdf(d2_tensor).div(spot * w)
+        _div_0by0(npdf(d2_tensor), spot * w)
         + ncdf(d1_tensor).div(strike)
-        + npdf(d1_tensor).div(strike * w)
+        + _div_0by0(npdf(d1_tensor), strike * w)
     )
     return p.where(max_log_moneyness < 0, torch.zeros_like(p))
 
@@ -1155,10 +1168,10 @@ def bs_american_binary_gamma(
     w = v * t.sqrt()
 
     p = (
-        -npdf(d2_tensor).div(spot.square() * w)
-        - d2_tensor * npdf(d2_tensor).div(spot.square() * w.square())
-        + npdf(d1_tensor).div(spot * strike * w)
-        - d1_tensor * npdf(d1_tensor).div(spot * strike * w.square())
+        -_div_0by0(npdf(d2_tensor), spot.square() * w)
+        - _div_0by0(_x_npdf(d2_tensor), spot.square() * w.square())
+        + _div_0by0(npdf(d1_tensor), spot * strike * w)
+        - _div_0by0(_x_npdf(d1_tensor), spot * strike * w.square())
     )
     return p.where(max_log_moneyness < 0, torch.zeros_like(p))
 
